@@ -335,6 +335,16 @@ func (e BridgeEngine) setupSteps(r *Run, st *BridgeSt) []Step {
 			{K: "eth_call", S: "user/0", A: A("to", "", "data", hex.EncodeToString(InitCode(ForwarderRuntime())), "value", "0"), Gas: 3_000_000},
 		}})
 	}
+	if r.Prop == "C04" || r.Prop == "C05" || r.Prop == "C06" {
+		// a contract that accepts any call and any value: inbound bridge calls with a value find a callee (the
+		// callback sender holds nothing, half of the time it is given a little)
+		txs := []Tx{{K: "eth_call", S: "user/0", A: A("to", "", "data", hex.EncodeToString(InitCode(RecorderRuntime())), "value", "0"), Gas: 3_000_000}}
+		if rng.IntN(2) == 0 {
+			cb := common.BytesToAddress(authtypes.NewModuleAddress(cctypes.ModuleName))
+			txs = append(txs, Tx{K: "eth_call", S: "user/0", A: A("to", cb.Hex(), "data", "", "value", "5000"), Gas: 300_000})
+		}
+		out = append(out, Step{Kind: "block", DtMs: 5000, N: 1, Txs: txs})
+	}
 	if r.Prop == "C03" {
 		// a contract that records value and call data of every call, so that the data / memo / value
 		// fields of an executed bridge call are observable; the callback sender gets funds for the values
